@@ -291,6 +291,24 @@ def find_sites(models):
 	return sites
 
 
+def pick_type(models, kind, avoid=()):
+	"""Name of a declaration of the schema of the wanted kind (alias / enum / plain struct without is_size_implicit / abstract struct)."""
+	from catparser.ast import Alias, Enum, Struct  # pylint: disable=import-outside-toplevel
+	for model in models:
+		name = str(model.name)
+		if name in avoid:
+			continue
+		if 'alias' == kind and isinstance(model, Alias):
+			return name
+		if 'enum' == kind and isinstance(model, Enum):
+			return name
+		if 'plain-struct' == kind and isinstance(model, Struct) and model.disposition is None and not model.is_size_implicit:
+			return name
+		if 'abstract-struct' == kind and isinstance(model, Struct) and 'abstract' == model.disposition:
+			return name
+	return None
+
+
 def apply_break(models, site):
 	"""Breaks exactly one reference in place. Returns (member name or None, extra container names) or None when not applicable."""
 	# pylint: disable=too-many-return-statements,too-many-branches,too-many-statements,too-many-locals
@@ -346,18 +364,10 @@ def apply_break(models, site):
 		else:
 			field.field_type = 'Unknown9'
 	elif 'named_inline_of_non_inline' == operator:
-		from catparser.ast import Struct  # pylint: disable=import-outside-toplevel
-		if 'plain-struct' == variant:
-			field.field_type = 'Thing'
-		elif 'abstract-struct' == variant:
-			target = next((item for item in models if isinstance(item, Struct) and 'abstract' == item.disposition), None)
-			if target is None:
-				return None
-			field.field_type = str(target.name)
-		elif 'alias' == variant:
-			field.field_type = 'Height'
-		else:
-			field.field_type = 'Mode'
+		replacement = pick_type(models, variant, avoid=(struct_name,))
+		if replacement is None:
+			return None
+		field.field_type = replacement
 	elif 'unknown_member_type' == operator:
 		field.field_type = 'Unknown9'
 	elif 'unknown_element_type' == operator:
@@ -371,7 +381,8 @@ def apply_break(models, site):
 			attribute.values[0] = 'nosuch'
 			attribute.value = 'nosuch'
 		else:
-			field.field_type.element_type = FixedSizeInteger('uint8') if 0 == index % 2 else 'Height'
+			replacement = pick_type(models, 'alias')
+			field.field_type.element_type = FixedSizeInteger('uint8') if 0 == index % 2 or replacement is None else replacement
 	elif 'unknown_sizeref_target' == operator:
 		attribute = next(attribute for attribute in field.attributes if 'sizeref' == attribute.name)
 		attribute.values[0] = 'nosuch'
@@ -389,7 +400,12 @@ def apply_break(models, site):
 		target = next((item for item in model.fields if hasattr(item, 'name') and str(item.name) == str(field.value)), None)
 		if target is None:
 			return None
-		target.field_type = {'alias': 'Height', 'struct-not-implicit': 'Elem', 'integer': FixedSizeInteger('uint32'), 'unknown-type': 'Unknown9'}[variant]
+		replacement = {
+			'alias': pick_type(models, 'alias'), 'struct-not-implicit': pick_type(models, 'plain-struct', avoid=(struct_name,)),
+			'integer': FixedSizeInteger('uint32'), 'unknown-type': 'Unknown9'}[variant]
+		if replacement is None:
+			return None
+		target.field_type = replacement
 	elif 'unknown_condition_member' == operator:
 		field.value.linked_field_name = 'nosuch'
 	elif 'condition_value_not_in_enum' == operator:
@@ -447,7 +463,7 @@ class Checker:
 	def pipeline(self, text, site, case, always_post=False):
 		"""Runs the stages as __main__ does. Returns dict(pre, post, crash, expanded)."""
 		ctx = self.ctx
-		models = cats_common.parse_text(text) if isinstance(text, str) else text()
+		models = text() if callable(text) else cats_json.schema_from_wire(text)
 		applied = None
 		if site is not None:
 			applied = apply_break(models, site)
@@ -515,9 +531,19 @@ class Checker:
 				ctx.fail('corr', f'the model pipeline (validate, expand, validate) is not clean on a consistent schema: {str(answer)[:300]}', case)
 		return baseline
 
-	def check_break(self, source, site, label, text, baseline):
+	def check_break(self, source, site, label, text, baseline, reference):
+		"""source: wire text of the consistent schema; reference: its declarations (unbroken) for the inline graph."""
 		ctx = self.ctx
 		operator, variant, struct_name, _ = site
+		if 'bad_initializer' == operator and variant in ('unknown-value', 'different-type'):
+			# a struct that is not concrete may leave the constant to its descendants: the error is due in concrete inheritors only
+			concrete = [
+				name for name in containers_of(reference, struct_name)
+				if next(model for model in reference if str(model.name) == name).disposition not in ('abstract', 'inline')]
+			if struct_name not in concrete:
+				ctx.count(f'break:{operator}:{variant}:left-to-descendants')
+				if not concrete:
+					return
 		case = {'label': label, 'site': list(site)}
 		if text is not None:
 			case['cats'] = text
@@ -530,8 +556,13 @@ class Checker:
 		if result['crash'] is not None:
 			return
 		member, _ = result['applied']
-		fresh = cats_common.parse_text(text) if text is not None else source()
-		containers = containers_of(fresh, struct_name)
+		containers = containers_of(reference, struct_name)
+		if 'duplicate_member' == operator:
+			# a renamed member is also visible from arrays that sort their elements (of this struct type) by it
+			from catparser.ast import Array  # pylint: disable=import-outside-toplevel
+			for model in struct_models(reference):
+				if any(isinstance(getattr(field, 'field_type', None), Array) and struct_name == str(field.field_type.element_type) for field in model.fields):
+					containers |= containers_of(reference, str(model.name))
 		errors = list(result['pre'] or []) + [error for error in (result['post'] or []) if error not in baseline]
 		if result['raised'] is not None and not errors:
 			self.fail_property(f'{operator}/{variant} at {struct_name}: no validation error, post-processing raises {result["raised"]}', case)
@@ -563,21 +594,25 @@ def run(ctx):
 		baseline = checker.check_consistent(loader, f'shipped:{name}')
 		if baseline is None:
 			continue
-		sites = find_sites(loader())
+		reference = loader()
+		wire = cats_json.schema_to_wire(reference)
+		sites = find_sites(reference)
 		ctx.count(f'shipped:{name}:sites', len(sites))
-		for site in rng.sample(sites, min(len(sites), ctx.scale(25, 400))):
-			checker.check_break(loader, site, f'shipped:{name}', None, baseline)
+		for site in rng.sample(sites, min(len(sites), ctx.scale(60, 1000))):
+			checker.check_break(wire, site, f'shipped:{name}', None, baseline, reference)
 
-	count = ctx.scale(60, 1200)
+	count = ctx.scale(80, 2500)
 	for index in range(count):
 		text = gen_consistent(rng)
 		label = f'random:{index}'
 		try:
-			baseline = checker.check_consistent(text, label, text)
+			baseline = checker.check_consistent(lambda text=text: cats_common.parse_text(text), label, text)
 			if baseline is None:
 				continue
-			for site in find_sites(cats_common.parse_text(text)):
-				checker.check_break(text, site, label, text, baseline)
+			reference = cats_common.parse_text(text)
+			wire = cats_json.schema_to_wire(reference)
+			for site in find_sites(reference):
+				checker.check_break(wire, site, label, text, baseline, reference)
 		except Exception as ex:  # pylint: disable=broad-except
 			ctx.fail('corr', f'harness error {type(ex).__name__}: {ex} {traceback.format_exc(limit=4)}', {'label': label, 'cats': text})
 			if ctx.counters.get('fail:corr', 0) > 5:
@@ -624,9 +659,11 @@ def replay(ctx, payload):
 	case = payload.get('case') or {}
 	checker = Checker(ctx)
 	if 'cats' in case:
-		baseline = checker.check_consistent(case['cats'], case.get('label', 'replay'), case['cats']) or []
+		text = case['cats']
+		baseline = checker.check_consistent(lambda: cats_common.parse_text(text), case.get('label', 'replay'), text) or []
 		if 'site' in case:
-			checker.check_break(case['cats'], tuple(case['site']), case.get('label', 'replay'), case['cats'], baseline)
+			reference = cats_common.parse_text(text)
+			checker.check_break(cats_json.schema_to_wire(reference), tuple(case['site']), case.get('label', 'replay'), text, baseline, reference)
 	else:
 		run(ctx)
 
